@@ -67,6 +67,12 @@ module.exports = mk({
       r.stats.states++; r.stats.transitions++
       leaves.push({ fam: 'perm', key: 'file¦' + st + '¦' + verb + '¦' + file, code: `function main(a, b, c, s, o, h) { let x, y, i = 0; ${STMTS[st]} return x }`, config: cfg, file, desc: 'file' })
     }
+    // the verbosity is a string option read case-insensitively: every spelling selects the same implementation
+    for (const verb of ['off', 'Off', 'oFF', 'debug', 'Debug', 'mandatory', 'Mandatory', 'information', 'Information']) for (const st of ['hooked_plus', 'num_plus', 'nested']) for (const cfgName of ['FULL', 'RENAMED']) {
+      const cfg = Object.assign({}, C[cfgName], { telemetryVerbosity: verb })
+      r.stats.states++; r.stats.transitions++
+      leaves.push({ fam: 'perm', key: 'spelling¦' + st + '¦' + verb + '¦' + cfgName, code: `function main(a, b, c, s, o, h) { let x, y, i = 0; ${STMTS[st]} return x }`, config: cfg, file: '/p/app.js', desc: 'spelling ' + verb })
+    }
     // counts around the sizes at which a narrow counter would wrap or a list would be capped
     for (const n of tier === 'thorough' ? [9, 10, 11, 99, 100, 101, 255, 256, 257, 1000, 65536] : [9, 10, 11, 255, 256, 257, 1000]) {
       for (const [kind, stmt] of [['plus', 'x = a + b;'], ['method', 'x = a.trim();'], ['mixed', 'x = a + b; y = `${a}${b}`; x += a.concat(b);']]) {
